@@ -7,6 +7,7 @@ CONSTANTS
   Chunked = TRUE
   NoRangeLen = 3
   CodeDen <- Den1
+  Dims = 1
 VIEW View
 INVARIANTS TypeOK PartsOK Partition Complete EncodeOK PolyOK
 PROPERTIES JoinTotals Progress
